@@ -166,6 +166,25 @@ class Ctx:
             vs_ = [self._assumed(a_, _d + 1) for a_ in t[1]]
             if vs_ and all(v_[0] == "const" and v_[1] == "bool" for v_ in vs_) and len(set(v_[2] for v_ in vs_)) == 1:
                 return vs_[0]
+        if self.assumptions and t[0] == "call" and t[1].split("::")[-1] in ("is_none_or", "is_some_and", "is_ok_and", "is_err_and") and len(t[2]) == 2 and t[2][1][0] == "closure" and _d < 3:
+            # opt.is_none_or(f) / opt.is_some_and(f) / res.is_ok_and(f): decided by the Some/Ok-ness of the receiver in
+            # this world and, where f applies, by f(payload)
+            last_ = t[1].split("::")[-1]
+            a_ = self._assumed_ok(t[2][0])
+            applies = {"is_none_or": True, "is_some_and": True, "is_ok_and": True, "is_err_and": False}[last_]
+            if a_ is not None and a_ != applies:
+                return ("const", "bool", last_ == "is_none_or")
+            if a_ is not None and self.level < 3:
+                cb_ = self.prog.body(t[2][1][1])
+                if cb_ is not None:
+                    caps_ = {n: v for _, n, v in t[2][1][2]}
+                    cc_ = Ctx(cb_, params={2: ok_payload(t[2][0])}, captures=caps_, assumptions=self.assumptions)
+                    cc_.level = self.level + 1
+                    rt_ = cc_.settle().T.return_term()
+                    if not (rt_[0] == "const" and rt_[1] == "bool"):
+                        rt_ = cc_._assumed(rt_, _d + 1)
+                    if rt_[0] == "const" and rt_[1] == "bool":
+                        return rt_
         if self.assumptions and t[0] == "payload":
             # `helper(..)?` where the helper answers Ok(bool): evaluate it in this world
             c0 = t[1][1] if t[1][0] == "trybranch" else t[1]
